@@ -83,6 +83,10 @@ func (g *sgen) desc(indent, what string) {
 	if !g.f.Descriptions || g.r.Intn(2) == 0 {
 		return
 	}
+	if g.r.Intn(3) == 0 {
+		// backslashes mean nothing in a block string and one character in a quoted one
+		what += ` matching ^\d{3}-\w+$ under C:\tmp\new`
+	}
 	if g.f.BlockDesc && g.r.Intn(2) == 0 {
 		fmt.Fprintf(&g.b, "%s\"\"\"\n%s%s\n%ssecond line with \"quotes\"\n%s\"\"\"\n", indent, indent, what, indent, indent)
 		return
